@@ -480,6 +480,9 @@ func checkC05(c *Ctx, r *Report) {
 	// ---- C05-block
 	blockRule(c, r, pr, "C05-block")
 	frameLenRule(c, r, pr, "C05-framelen")
+	alignRule(c, r, "C05-align")
+	turnRule(c, r, "C05-turn")
+	hdrCheckRule(c, r, "C05-hdrcheck")
 
 	// ---- C05-sid
 	r.Rule("C05-sid", 1, "handshake requires B2")
@@ -549,5 +552,408 @@ func blockRule(c *Ctx, r *Report, pr *prover, rule string) {
 		same := ci.Common().Args[1] == ranged
 		r.Check(rule, fnName(fn), "answers matched against the emitted block", c.pos(ci.Pos()), same,
 			"parseProposalAnswer receives the same (truncated) slice that was emitted", "the answers are matched against a different slice than the block that was emitted")
+	}
+}
+
+// loadOfIndex: v == *(&X[i]) -> (X, i).
+func loadOfIndex(v ssa.Value) (ssa.Value, ssa.Value, bool) {
+	u, ok := v.(*ssa.UnOp)
+	if !ok || u.Op != token.MUL {
+		return nil, nil, false
+	}
+	ia, ok := u.X.(*ssa.IndexAddr)
+	if !ok {
+		return nil, nil, false
+	}
+	return ia.X, ia.Index, true
+}
+
+// alignRule: answers are attached to the proposal they were asked for, and byte i of the FS line is
+// the answer of proposal i.
+func alignRule(c *Ctx, r *Report, rule string) {
+	r.Rule(rule, 3, "each answer goes to the proposal it was asked for; byte i of the FS line answers proposal i")
+	fn := c.Func("fbb", "(*Session).writeProposalsAnswer")
+	if fn == nil {
+		r.Fail(rule, "anchor writeProposalsAnswer not found")
+		return
+	}
+	where := fnName(fn)
+	var props ssa.Value
+	for _, p := range fn.Params {
+		if isSliceType(p.Type()) {
+			props = p
+		}
+	}
+	isProps := func(v ssa.Value) bool { return props != nil && sameSlotValue(v, props.(*ssa.Parameter)) }
+	loops := naturalLoops(fn)
+	everyIteration := func(in ssa.Instruction) bool {
+		for _, l := range loops {
+			if !l.body[in.Block()] {
+				continue
+			}
+			for _, latch := range l.latches {
+				if !in.Block().Dominates(latch) {
+					return false
+				}
+			}
+			return true
+		}
+		return false
+	}
+	nStores := 0
+	eachInstr(fn, func(_ *ssa.BasicBlock, _ int, in ssa.Instruction) {
+		st, ok := in.(*ssa.Store)
+		if !ok {
+			return
+		}
+		// ---- stores to Proposal.answer
+		if fa, ok := st.Addr.(*ssa.FieldAddr); ok && strings.HasSuffix(pathOf(fa), ".answer") {
+			if _, isC := st.Val.(*ssa.Const); isC {
+				return
+			}
+			nStores++
+			o := r.Add(rule, where, "answer stored: "+c.exprAt(fn, st.Pos()), c.pos(st.Pos()))
+			// (a) one proposal at a time
+			if call, ok := st.Val.(*ssa.Call); ok && call.Call.IsInvoke() && call.Call.Method.Name() == "GetInboundAnswer" {
+				arg := call.Call.Args[0]
+				if u, ok := arg.(*ssa.UnOp); ok && u.Op == token.MUL && u.X == fa.X {
+					o.OK("the handler is asked about the very proposal that receives the answer")
+				} else {
+					o.Bad("the answer of GetInboundAnswer is stored into a proposal other than the one the handler was asked about")
+				}
+				return
+			}
+			// (b) batched
+			A, i, ok := loadOfIndex(st.Val)
+			var batchCall *ssa.Call
+			if ok {
+				if call, isCall := A.(*ssa.Call); isCall && call.Call.IsInvoke() && call.Call.Method.Name() == "GetInboundAnswers" {
+					batchCall = call
+				}
+			}
+			if batchCall == nil {
+				o.Bad("the value stored as answer is neither a constant, the result of GetInboundAnswer for this proposal, nor element i of the GetInboundAnswers result (unresolved)")
+				return
+			}
+			P, e, ok1 := loadOfIndex(fa.X)
+			var U, i2 ssa.Value
+			ok2 := false
+			if ok1 {
+				U, i2, ok2 = loadOfIndex(e)
+			}
+			switch {
+			case !ok1 || !isProps(P):
+				o.Bad("the batched answer is not stored into an element of the proposals of this block (unresolved)")
+				return
+			case !ok2 || i2 != i:
+				o.Bad("answer i of GetInboundAnswers is stored into proposals[%s]: the batch holds only the proposals that still needed an answer, so answer i belongs to proposals[unanswered[i]] - after a duplicate MID or an unsupported proposal the answers shift onto the wrong proposals", pathOf(e))
+				return
+			}
+			// the batch handed to the handler is built, in order, from proposals[U[k]] for every k
+			okBatch, nApp := true, 0
+			var walk func(v ssa.Value, depth int)
+			seen := map[ssa.Value]bool{}
+			walk = func(v ssa.Value, depth int) {
+				if seen[v] || depth > 6 {
+					return
+				}
+				seen[v] = true
+				switch x := v.(type) {
+				case *ssa.Phi:
+					for _, ed := range x.Edges {
+						walk(ed, depth+1)
+					}
+				case *ssa.MakeSlice:
+					if k, isC := constInt(x.Len); !isC || k != 0 {
+						okBatch = false
+					}
+				case *ssa.Const:
+				case *ssa.Call:
+					if callName(&x.Call) != "builtin.append" {
+						okBatch = false
+						return
+					}
+					nApp++
+					walk(x.Call.Args[0], depth+1)
+					els, ok := variadicArgs(x.Call.Args[1])
+					if !ok || len(els) != 1 {
+						okBatch = false
+						return
+					}
+					d, isLoad := els[0].(*ssa.UnOp)
+					if !isLoad || d.Op != token.MUL {
+						okBatch = false
+						return
+					}
+					P2, e2, okP := loadOfIndex(d.X)
+					if !okP || !isProps(P2) {
+						okBatch = false
+						return
+					}
+					U2, _, okU := loadOfIndex(e2)
+					if !okU || U2 != U || !everyIteration(x) {
+						okBatch = false
+					}
+				default:
+					okBatch = false
+				}
+			}
+			walk(batchCall.Call.Args[0], 0)
+			if okBatch && nApp == 1 {
+				o.OK("answer i is stored into proposals[U[i]] and the batch is built in order from proposals[U[k]] for every k of the same index list")
+			} else {
+				o.Bad("could not establish that the batch handed to GetInboundAnswers is built in order from proposals[U[k]] over the same index list that places the answers (unresolved)")
+			}
+			return
+		}
+		// ---- the FS line: byte i is the answer of proposal i
+		if ia, ok := st.Addr.(*ssa.IndexAddr); ok {
+			mk, isMk := ia.X.(*ssa.MakeSlice)
+			if !isMk || !types.Identical(mk.Type().Underlying().(*types.Slice).Elem(), types.Typ[types.Byte]) {
+				return
+			}
+			v := st.Val
+			if cv, ok := v.(*ssa.Convert); ok {
+				v = cv.X
+			}
+			if cv, ok := v.(*ssa.ChangeType); ok {
+				v = cv.X
+			}
+			ld, ok := v.(*ssa.UnOp)
+			if !ok {
+				return
+			}
+			fa, ok := ld.X.(*ssa.FieldAddr)
+			if !ok || !strings.HasSuffix(pathOf(fa), ".answer") {
+				return
+			}
+			nStores++
+			P, e, okP := loadOfIndex(fa.X)
+			r.Check(rule, where, "FS byte: "+c.exprAt(fn, st.Pos()), c.pos(st.Pos()), okP && isProps(P) && e == ia.Index,
+				"byte i of the answer line is the answer of proposals[i]", "byte i of the FS line is not the answer of proposal i: answers are reported for the wrong proposals")
+		}
+	})
+	if nStores < 3 {
+		r.Fail(rule, "only %d answer stores found in writeProposalsAnswer, expected the single, the batched and the FS-line store", nStores)
+	}
+}
+
+// turnRule: the FF/FQ decision. The session may quit (FQ) only when the remote's last turn carried
+// no proposals; a proposal block from the remote clears that flag before it is answered.
+func turnRule(c *Ctx, r *Report, rule string) {
+	r.Rule(rule, 4, "FQ only after a remote turn without proposals; a proposal block clears the flag")
+	isFlag := func(v ssa.Value) bool { return strings.HasSuffix(pathOf(v), ".remoteNoMsgs") }
+	flagCond := func(conds []Cond, truth bool) bool {
+		for _, cd := range conds {
+			if u, ok := cd.V.(*ssa.UnOp); ok && u.Op == token.MUL && isFlag(u.X) && cd.Truth == truth {
+				return true
+			}
+		}
+		return false
+	}
+	// ---- sender side
+	if fn := c.Func("fbb", "(*Session).handleOutbound"); fn == nil {
+		r.Fail(rule, "anchor handleOutbound not found")
+	} else {
+		where := fnName(fn)
+		found := map[string]int{}
+		eachInstr(fn, func(b *ssa.BasicBlock, _ int, in ssa.Instruction) {
+			ops := in.Operands(nil)
+			for k, op := range ops {
+				s, ok := constString(*op)
+				if !ok || (!strings.HasPrefix(s, "FQ") && !strings.HasPrefix(s, "FF")) || len(strings.TrimRight(s, "\r\n")) != 2 {
+					continue
+				}
+				word := s[:2]
+				var conds []Cond
+				if ph, isPhi := in.(*ssa.Phi); isPhi {
+					pred := b.Preds[k]
+					conds = append(append(conds, condsAt(pred)...), edgeCond(pred, b)...)
+					_ = ph
+				} else {
+					conds = condsAt(b)
+				}
+				found[word]++
+				o := r.Add(rule, where, "sends "+word, c.pos(in.Pos()))
+				switch {
+				case word == "FQ" && flagCond(conds, true):
+					o.OK("FQ is chosen only on the edge where the remote's last turn had no proposals")
+				case word == "FQ":
+					o.Bad("FQ can be sent although the remote's last turn was a proposal block (not chosen under remoteNoMsgs): the session quits while the remote still has messages")
+				case flagCond(conds, false):
+					o.OK("FF is chosen on the edge where the remote may still have messages")
+				default:
+					o.Bad("FF is not chosen exactly on the edge 'remote may still have messages'")
+				}
+			}
+		})
+		if found["FQ"] == 0 || found["FF"] == 0 {
+			r.Add(rule, where, "FF/FQ choice", c.pos(fn.Pos())).Bad("could not find the constants FF and FQ in handleOutbound (unresolved)")
+		}
+		// the result says whether FQ was sent
+		for _, ret := range returnsOf(fn) {
+			emptyOut := false
+			for _, cd := range condsAt(ret.Block()) {
+				if b, ok := cd.V.(*ssa.BinOp); ok && b.Op == token.EQL && cd.Truth {
+					if k, isC := constInt(b.Y); isC && k == 0 {
+						emptyOut = true
+					}
+				}
+			}
+			if !emptyOut {
+				continue
+			}
+			v := resOf(ret, 0)
+			ok := false
+			if u, isLoad := v.(*ssa.UnOp); isLoad && u.Op == token.MUL && isFlag(u.X) {
+				ok = true
+			}
+			if b, isC := constBool(v); isC {
+				ok = flagCond(condsAt(ret.Block()), b)
+			}
+			r.Check(rule, where, "quitSent result", c.pos(ret.Pos()), ok,
+				"the result reports FQ exactly when the flag chose FQ", "the quitSent result does not follow the FF/FQ choice: the turn loop continues after FQ or stops after FF")
+		}
+	}
+	// ---- receiver side
+	if fn := c.Func("fbb", "(*Session).handleInbound"); fn == nil {
+		r.Fail(rule, "anchor handleInbound not found")
+	} else {
+		where := fnName(fn)
+		var falseStores, trueStores []*ssa.Store
+		eachInstr(fn, func(_ *ssa.BasicBlock, _ int, in ssa.Instruction) {
+			st, ok := in.(*ssa.Store)
+			if !ok || !isFlag(st.Addr) {
+				return
+			}
+			b, isC := constBool(st.Val)
+			switch {
+			case !isC:
+				r.Add(rule, where, "store to remoteNoMsgs", c.pos(st.Pos())).Bad("remoteNoMsgs is assigned a non-constant value (unresolved)")
+			case b:
+				trueStores = append(trueStores, st)
+				// only after FF, or after a prompt that closed an empty block
+				okWhere := false
+				for _, cd := range condsAt(st.Block()) {
+					bo, isB := cd.V.(*ssa.BinOp)
+					if !isB || bo.Op != token.EQL || !cd.Truth {
+						continue
+					}
+					if s, isS := constString(bo.Y); isS && s == "FF" {
+						okWhere = true
+					}
+					if k, isK := constInt(bo.Y); isK && k == 0 {
+						if lc, isLen := bo.X.(*ssa.Call); isLen && callName(&lc.Call) == "builtin.len" {
+							okWhere = true
+						}
+					}
+				}
+				r.Check(rule, where, "remoteNoMsgs = true", c.pos(st.Pos()), okWhere,
+					"set only after FF or after a prompt that closed an empty block", "remoteNoMsgs is set although the remote sent neither FF nor an empty block")
+			default:
+				falseStores = append(falseStores, st)
+			}
+		})
+		for _, ci := range callsTo(fn, false, "fbb.Session.writeProposalsAnswer") {
+			ok := false
+			for _, fs := range falseStores {
+				if !instrDominates(fs, ci) {
+					continue
+				}
+				ok = true
+				for _, ts := range trueStores {
+					if instrReaches(fs, ts) && instrReaches(ts, ci) {
+						ok = false
+					}
+				}
+			}
+			r.Check(rule, where, "proposal block clears remoteNoMsgs", c.pos(ci.Pos()), ok,
+				"remoteNoMsgs = false dominates the answer to a proposal block", "a proposal block from the remote is answered without clearing remoteNoMsgs: after an earlier FF the flag stays set and the session sends FQ while the remote still has messages for a later block")
+		}
+	}
+}
+
+// hdrCheckRule: the receiver compares the SOH length byte with the lengths of the title and offset
+// exactly as they came off the wire (not of a decoded or trimmed form).
+func hdrCheckRule(c *Ctx, r *Report, rule string) {
+	r.Rule(rule, 1, "the SOH length byte is compared with the raw lengths of title and offset")
+	fn := c.Func("fbb", "(*Session).readCompressed")
+	if fn == nil {
+		r.Fail(rule, "anchor readCompressed not found")
+		return
+	}
+	where := fnName(fn)
+	isReadByte := func(v ssa.Value) bool {
+		if cv, ok := v.(*ssa.Convert); ok {
+			v = cv.X
+		}
+		ex, ok := v.(*ssa.Extract)
+		if !ok || ex.Index != 0 {
+			return false
+		}
+		call, ok := ex.Tuple.(*ssa.Call)
+		return ok && callName(&call.Call) == "bufio.Reader.ReadByte"
+	}
+	// rawSource: v is the result of a ReadString on the session reader, possibly re-sliced
+	var rawSource func(v ssa.Value, depth int) *ssa.Call
+	rawSource = func(v ssa.Value, depth int) *ssa.Call {
+		if depth > 6 {
+			return nil
+		}
+		switch x := v.(type) {
+		case *ssa.Slice:
+			return rawSource(x.X, depth+1)
+		case *ssa.Extract:
+			if call, ok := x.Tuple.(*ssa.Call); ok && x.Index == 0 && callName(&call.Call) == "bufio.Reader.ReadString" {
+				return call
+			}
+		case *ssa.UnOp:
+			if x.Op == token.MUL {
+				if o := origin(x); o != ssa.Value(x) {
+					return rawSource(o, depth+1)
+				}
+			}
+		}
+		return nil
+	}
+	found := false
+	eachInstr(fn, func(_ *ssa.BasicBlock, _ int, in ssa.Instruction) {
+		b, ok := in.(*ssa.BinOp)
+		if !ok || (b.Op != token.EQL && b.Op != token.NEQ) {
+			return
+		}
+		var lenSide ssa.Value
+		switch {
+		case isReadByte(origin(b.X)):
+			lenSide = b.Y
+		case isReadByte(origin(b.Y)):
+			lenSide = b.X
+		default:
+			return
+		}
+		lf := newLin()
+		lf.addValue(origin(lenSide))
+		if !lf.ok || len(lf.lens) == 0 {
+			return // comparison of a marker byte with a constant, etc.
+		}
+		found = true
+		o := r.Add(rule, where, "header length comparison", c.pos(b.Pos()))
+		srcs := map[*ssa.Call]bool{}
+		for v := range lf.lens {
+			call := rawSource(v, 0)
+			if call == nil {
+				o.Bad("the SOH length byte is compared with the length of %s, which is not the string as read from the wire (decoded, trimmed or otherwise transformed): a conforming non-ASCII or word-encoded title is refused with a header length mismatch", pathOf(v))
+				return
+			}
+			srcs[call] = true
+		}
+		if len(srcs) != 2 {
+			o.Bad("the measured header length covers %d of the two NUL-terminated header strings", len(srcs))
+			return
+		}
+		o.OK("length byte compared with len(title)+len(offset)+%d of the two strings as read from the wire", lf.k)
+	})
+	if !found {
+		r.Add(rule, where, "header length comparison", c.pos(fn.Pos())).Bad("no comparison of the SOH length byte with measured lengths found (unresolved)")
 	}
 }
